@@ -1197,16 +1197,22 @@ def Q45(F, rep, R, FL, ws):
     rep.count('Q4')
     ok = False
     seen = []
+    FLIP = {'<': '>', '<=': '>=', '>': '<', '>=': '<=', '==': '==', '!=': '!='}
     for w in rd:
-        for d in w['disjuncts']:
-            sx = expr_str(d).replace('this.', '')
-            seen.append(sx)
-            if sx in ('(m_tellg >= m_fileSize)', '(m_fileSize <= m_tellg)'):
-                ok = True
+        # comparison atoms of the (helper-expanded) predicate with negations pushed in, written get-count-first
+        ats = set()
+        for a, op, b in _cmp_atoms(w['disjuncts']):
+            seen.append('%s %s %s' % (a, op, b))
+            if (a, b) == ('m_fileSize', 'm_tellg'):
+                a, op, b = b, FLIP[op], a
+            if (a, b) == ('m_tellg', 'm_fileSize'):
+                ats.add(op)
+        if '>=' in ats or {'>', '=='} <= ats:
+            ok = True
     rep.ob('Q4', 'read|eof-atom', ok, rep.fn_site(rd[0]['fn'], rd[0]['line']) if rd else None,
            'ObjectQueue::read is released at the declared end by m_tellg >= m_fileSize' if ok else
            'ObjectQueue::read: no disjunct of the wait predicate is m_tellg >= m_fileSize (%s): for some declared sizes (smaller than the get count, 0) '
-           'the reader is never released' % ' || '.join(seen), nontrivial=True)
+           'the reader is released too early or never' % ' || '.join(seen), nontrivial=True)
     wr = [f for f in methods_of(F, cls) if f['simple'] == 'write']
     for fn in wr:
         rep.count('Q5')
@@ -1227,6 +1233,23 @@ def Q45(F, rep, R, FL, ws):
                'ObjectQueue::write enqueues its argument on each of its %d paths' % n if bad is None and n > 0 else
                'ObjectQueue::write can return without enqueuing its argument (%s): the object is never delivered' % (fmt_events(bad, limit=10) if bad else 'no path'),
                nontrivial=True)
+
+
+def _cmp_atoms(disjuncts):
+    """(lhs, op, rhs) of every disjunct that is a comparison, negations pushed into the operator: !(a >= b) is a < b"""
+    NEG = {'<': '>=', '<=': '>', '>': '<=', '>=': '<', '==': '!=', '!=': '=='}
+    out = []
+    for d in disjuncts:
+        x = strip_all_casts(d)
+        neg = False
+        while isinstance(x, dict) and (x.get('k') == 'Paren' or (x.get('k') == 'Un' and x.get('op') == '!')):
+            if x.get('k') == 'Un':
+                neg = not neg
+            x = strip_all_casts(x.get('sub'))
+        if isinstance(x, dict) and x.get('k') == 'Bin' and x.get('op') in NEG:
+            op = NEG[x['op']] if neg else x['op']
+            out.append((expr_str(x['lhs']).replace('this.', ''), op, expr_str(x['rhs']).replace('this.', '')))
+    return out
 
 
 def _lid(e):
@@ -1516,21 +1539,11 @@ def Q(F, rep, R, FL):
     rep.count('Q3')
     wr = [f for f in methods_of(F, cls) if f['simple'] == 'write']
     atoms = []
-    NEG = {'<': '>=', '<=': '>', '>': '<=', '>=': '<'}
     for w in wait_sites(F, R):
         if w['cls'] != cls or w['fn']['simple'] != 'write':
             continue
         # the disjuncts of the (helper-expanded) predicate, negations pushed into the comparison:  !(size() >= cap)  is  size() < cap
-        for d in w['disjuncts']:
-            x = strip_all_casts(d)
-            neg = False
-            while isinstance(x, dict) and (x.get('k') == 'Paren' or (x.get('k') == 'Un' and x.get('op') == '!')):
-                if x.get('k') == 'Un':
-                    neg = not neg
-                x = strip_all_casts(x.get('sub'))
-            if isinstance(x, dict) and x.get('k') == 'Bin' and x.get('op') in NEG:
-                op = NEG[x['op']] if neg else x['op']
-                atoms.append((expr_str(x['lhs']).replace('this.', ''), op, expr_str(x['rhs']).replace('this.', '')))
+        atoms += _cmp_atoms(w['disjuncts'])
     ok = any((a[0] == 'm_queue.size()' and a[1] == '<' and a[2] == 'm_bufferSize') or
              (a[0] == 'm_bufferSize' and a[1] == '>' and a[2] == 'm_queue.size()') for a in atoms)
     rep.ob('Q3', 'write|capacity-exact', ok, rep.fn_site(wr[0]) if wr else None,
